@@ -333,8 +333,22 @@ func definitelyNonNil(v ssa.Value, depth int) bool {
 		}
 		if f := v.Common().StaticCallee(); f != nil && f.Blocks != nil && f.Signature.Results().Len() == 1 {
 			ok := true
+			args := callArgs(v.Common())
 			for _, r := range returnsOf(f) {
-				if !definitelyNonNil(res(r, 0), depth+1) {
+				rv := res(r, 0)
+				// a method that hands its receiver/argument back (e.updateFromTokenIfNeeded(…) returns e)
+				if pa, isP := rv.(*ssa.Parameter); isP {
+					idx := -1
+					for i, q := range f.Params {
+						if q == pa {
+							idx = i
+						}
+					}
+					if idx >= 0 && idx < len(args) && definitelyNonNil(args[idx], depth+1) {
+						continue
+					}
+				}
+				if !definitelyNonNil(rv, depth+1) {
 					ok = false
 				}
 			}
